@@ -42,13 +42,16 @@ def hexDigitOf (n : Nat) (upper : Bool) : UInt8 :=
 
 def isRegularByte (b : UInt8) : Bool := !Prim.isNameTerm b
 
-/-- one name byte: raw when it is a regular character other than '#' (choice permitting), else `#hh` -/
+/-- one name byte: raw when it is a regular character other than '#' and `raw` is chosen, else `#hh` -/
+def encByte (b : UInt8) (raw u1 u2 : Bool) : Bytes :=
+  if isRegularByte b && b != 35 && raw then [b]
+  else [35, hexDigitOf (b.toNat / 16) u1, hexDigitOf (b.toNat % 16) u2]
+
 def nameByte (b : UInt8) (c : Ch) : Bytes × Ch :=
   let (esc, c) := pick c 3
   let (up1, c) := pick c 2
   let (up2, c) := pick c 2
-  if isRegularByte b && b != 35 && esc != 0 then ([b], c)
-  else ([35, hexDigitOf (b.toNat / 16) (up1 == 1), hexDigitOf (b.toNat % 16) (up2 == 1)], c)
+  (encByte b (esc != 0) (up1 == 1) (up2 == 1), c)
 
 def nameBody : Bytes → Ch → Bytes × Ch
   | [], c => ([], c)
